@@ -15,4 +15,5 @@ let table : (string * (Model.sx -> Model.sx)) list = [
   "rlp", Model.check_rlp;
   "consensus", Model.check_consensus;
   "trie", Model.check_trie;
+  "evmarith", Model.check_evmarith;
 ]
